@@ -209,7 +209,7 @@ def q_patterns(cx, excludes):
                             continue
 
                         def pred(ck, kind=kind, side=side):
-                            if no_right_notin and kind[0] in ('bin', 'uminus', 'not') and side == 'right' and ck == ('bin', 'NOT IN'):
+                            if no_right_notin and kind[0] in ('bin', 'not') and side == 'right' and ck == ('bin', 'NOT IN'):
                                 return False
                             return bad_child(kind, side, ck)
                         qm = T.path(q, p, m)
@@ -398,7 +398,162 @@ def q_soundness(cx, excludes):
     return _finish(ch, goal, cx.timeout, "accepted but not derivable in the grammar")
 
 
-QUERIES = {"consistency": q_consistency, "error_token": q_error_token, "patterns": q_patterns,
+def _insert_link(a, b, c, inserted):
+    """chart a's string = chart b's string with the tokens `inserted` (list of terminal names) put in before b's position c"""
+    L = b.L
+    n = len(inserted)
+    cs = []
+    for k in range(a.L + 1):
+        if k < c:
+            cs.append(a.tok[k] == b.tok[k] if k <= L else a.tok[k] == a.t.code[END])
+        elif k < c + n:
+            cs.append(a.is_(k, inserted[k - c]))
+        else:
+            src = k - n
+            cs.append(a.tok[k] == b.tok[src] if src <= L else a.tok[k] == a.t.code[END])
+    return z3.And(cs)
+
+
+def _len_is(ch, n):
+    """the string has exactly n tokens"""
+    return z3.And(ch.is_(n, END), (ch.tok[n - 1] != ch.t.code[END]) if n > 0 else z3.BoolVal(True))
+
+
+def q_rw_newline(cx, excludes):
+    """blank statements are insignificant: inserting a separator at the start, at the end, or next to another separator keeps acceptance"""
+    b = lrc.Chart(cx.T, cx.L, name='b', alphabet=cx.alpha)
+    a = lrc.Chart(cx.T, cx.L + 1, name='a', alphabet=cx.alpha)
+    accb, acca = b.accept(), a.accept()
+    alts = []
+    for c in range(cx.L + 1):
+        where = [b.is_(c, END)]                       # at the end (or in the empty text)
+        if c == 0:
+            where.append(z3.BoolVal(True))
+        if c > 0:
+            where.append(b.is_(c - 1, 'NEWLINE'))
+        where.append(b.is_(c, 'NEWLINE'))
+        valid = z3.And(z3.Or(where), (b.tok[c - 1] != b.t.code[END]) if c > 0 else z3.BoolVal(True))
+        alts.append(z3.And(valid, _insert_link(a, b, c, ['NEWLINE'])))
+    goal = z3.And(z3.Or(alts), z3.Xor(acca, accb))
+    return _finish(b, goal, cx.timeout, "an extra statement separator changes acceptance", extra_charts=(a,))
+
+
+def q_rw_comma_removed(cx, excludes):
+    """a comma directly before a closing bracket (not directly after an opening bracket or another comma) can be removed"""
+    a = lrc.Chart(cx.T, cx.L, name='b', alphabet=cx.alpha)      # with the trailing comma (named b: it is the one reported)
+    b = lrc.Chart(cx.T, cx.L, name='a', alphabet=cx.alpha)      # without
+    acca, accb = a.accept(), b.accept()
+    alts = []
+    for c in range(1, cx.L - 1):
+        cond = z3.And(a.is_(c, 'COMMA'), z3.Or(a.is_(c + 1, 'RPAREN'), a.is_(c + 1, 'RBRACKET'), a.is_(c + 1, 'RBRACE')))
+        link = []
+        for k in range(cx.L + 1):
+            if k < c:
+                link.append(b.tok[k] == a.tok[k])
+            elif k + 1 <= cx.L:
+                link.append(b.tok[k] == a.tok[k + 1])
+            else:
+                link.append(b.is_(k, END))
+        alts.append(z3.And(cond, z3.And(link)))
+    goal = z3.And(z3.Or(alts), acca, z3.Not(accb))
+    return _finish(a, goal, cx.timeout, "accepted with a trailing comma but rejected without it", extra_charts=(b,))
+
+
+def _closers(cx):
+    """productions `... X CLOSER` (call / method call / list / dict without trailing comma) that have a sibling with `COMMA CLOSER`"""
+    T = cx.T
+    out = []
+    byrhs = {(p["name"], p["prod"]): i for i, p in enumerate(T.prods) if i > 0}
+    for i, p in enumerate(T.prods):
+        if i == 0 or len(p["prod"]) < 3:
+            continue
+        rhs = p["prod"]
+        if rhs[-1] in ('RPAREN', 'RBRACKET', 'RBRACE') and rhs[-2] != 'COMMA':
+            sib = (p["name"], rhs[:-1] + ('COMMA', rhs[-1]))
+            if sib in byrhs:
+                out.append((i, byrhs[sib]))
+    return out
+
+
+def q_rw_comma_added(cx, excludes):
+    """where a call / method call / list / dict production with an optional trailing comma was used, adding the comma keeps acceptance"""
+    b = lrc.Chart(cx.T, cx.L, name='b', alphabet=cx.alpha)
+    a = lrc.Chart(cx.T, cx.L + 1, name='a', alphabet=cx.alpha)
+    accb, acca = b.accept(), a.accept()
+    T = cx.T
+    alts = []
+    no_dict = "no_dict_trailing_comma" in excludes
+    for (p, psib) in _closers(cx):
+        if no_dict and T.prods[p]["prod"][-1] == 'RBRACE':
+            continue
+        n = T.prods[p]["len"]
+        for q in T.action:
+            if T.prods[p]["name"] not in T.goto.get(q, {}) or T.path(q, p, n) is None:
+                continue
+            for i in range(cx.L):
+                for j in range(i + n, cx.L + 1):
+                    occ = b.reduction(q, p, i, j)
+                    if occ is None:
+                        continue
+                    alts.append(z3.And(occ, _insert_link(a, b, j - 1, ['COMMA'])))
+    goal = z3.And(z3.Or(alts) if alts else z3.BoolVal(False), accb, z3.Not(acca))
+    return _finish(b, goal, cx.timeout, "accepted, but rejected after adding a trailing comma before the closing bracket", extra_charts=(a,))
+
+
+def q_rw_parens(cx, excludes):
+    """wrapping the text of any subexpression (an occurring `expression` reduction) in parentheses keeps acceptance"""
+    b = lrc.Chart(cx.T, cx.L, name='b', alphabet=cx.alpha)
+    a = lrc.Chart(cx.T, cx.L + 2, name='a', alphabet=cx.alpha + (['LPAREN', 'RPAREN'] if 'LPAREN' not in cx.alpha else []))
+    accb, acca = b.accept(), a.accept()
+    T = cx.T
+    alts = []
+    for q in T.action:
+        if 'expression' not in T.goto.get(q, {}):
+            continue
+        for i in range(cx.L):
+            r = b.reach(q, i)
+            if r is None:
+                continue
+            for j in range(i + 1, cx.L + 1):
+                s = b.sum(q, 'expression', i, j)
+                if s is None:
+                    continue
+                # a = b[:i] ( b[i:j] ) b[j:]
+                link = []
+                for k in range(a.L + 1):
+                    if k < i:
+                        link.append(a.tok[k] == b.tok[k])
+                    elif k == i:
+                        link.append(a.is_(k, 'LPAREN'))
+                    elif k <= j:
+                        link.append(a.tok[k] == b.tok[k - 1])
+                    elif k == j + 1:
+                        link.append(a.is_(k, 'RPAREN'))
+                    else:
+                        src = k - 2
+                        link.append(a.tok[k] == b.tok[src] if src <= cx.L else a.is_(k, END))
+                alts.append(z3.And(r, s, z3.And(link)))
+    goal = z3.And(z3.Or(alts) if alts else z3.BoolVal(False), accb, z3.Not(acca))
+    return _finish(b, goal, cx.timeout, "accepted, but rejected after parenthesising a subexpression", extra_charts=(a,))
+
+
+def q_rw_dot_pipe(cx, excludes):
+    """r.f(...) and r | f(...) are interchangeable: swapping DOT and PIPE before NAME LPAREN keeps acceptance"""
+    a = lrc.Chart(cx.T, cx.L, name='b', alphabet=cx.alpha)
+    b = lrc.Chart(cx.T, cx.L, name='a', alphabet=cx.alpha)
+    acca, accb = a.accept(), b.accept()
+    alts = []
+    for c in range(1, cx.L - 3):
+        cond = z3.And(a.is_(c, 'DOT'), a.is_(c + 1, 'NAME'), a.is_(c + 2, 'LPAREN'), z3.Not(a.is_(c + 3, 'RPAREN')))      # r.f(a..): at least one argument, as in the property
+        link = [b.tok[k] == a.tok[k] for k in range(cx.L + 1) if k != c] + [b.is_(c, 'PIPE')]
+        alts.append(z3.And(cond, z3.And(link)))
+    goal = z3.And(z3.Or(alts) if alts else z3.BoolVal(False), z3.Xor(acca, accb))
+    return _finish(a, goal, cx.timeout, "r.f(..) and r | f(..) differ in acceptance", extra_charts=(b,))
+
+
+QUERIES = {"rw_newline": q_rw_newline, "rw_comma_removed": q_rw_comma_removed, "rw_comma_added": q_rw_comma_added,
+           "rw_parens": q_rw_parens, "rw_dot_pipe": q_rw_dot_pipe,
+           "consistency": q_consistency, "error_token": q_error_token, "patterns": q_patterns,
            "completeness": q_completeness, "soundness": q_soundness}
 
 
@@ -530,6 +685,11 @@ def replay(rec):
         return ok, f"grammar derives {text!r} but parse -> {out['kind']}: {out.get('message', '')}"
     if q == "soundness":
         return out["kind"] == "accept", f"parse({text!r}) accepted although the productions do not derive it"
+    if q.startswith("rw_"):
+        toks2 = cex.get("tokens2") or []
+        out2 = real_outcome(parser, toks2)
+        ok = (out["kind"] == "accept") != (out2["kind"] == "accept") and "reserved" not in (out["kind"], out2["kind"])
+        return ok, f"parse({text!r}) -> {out['kind']} but parse({out2['text']!r}) -> {out2['kind']} ({out.get('message') or out2.get('message')})"
     if q == "patterns":
         if out["kind"] != "accept":
             return False, f"parse({text!r}) -> {out['kind']}"
